@@ -1,7 +1,7 @@
 #!/usr/bin/env python3
 """Writes MANIFEST.json (single source: this file) and validates it and the evidence files."""
 import json, sys, os, subprocess
-HOOK_COMMITS = ["4b7768b", "a5ea50e", "c993bd6", "7d718d1"]  # fix commit 3642904 is unguarded, see known_findings.json
+HOOK_COMMITS = ["4b7768b", "a5ea50e", "c993bd6", "7d718d1", "89b74a3"]  # fix commit 3642904 is unguarded, see known_findings.json
 NA_REASON = {
  "C01": "pure function of (A,B,op): deciding it is input search against a geometric oracle; no schedule, clock, fault or history to simulate (DESIGN.md section 7)",
  "C02": "ring grouping is a pure function of the input; no seam (section 7)",
